@@ -179,6 +179,11 @@ def b_hasattr(E, st, args, kw):
         raise Unsupported('hasattr with non-constant name')
     if isinstance(v, Ref):
         h = st.heap[v.oid]
+        if h.kind == 'obj' and isinstance(h.fields.get(name), LazyUnion):
+            outs = []
+            for s1 in E.resolve_field(st, v, name):
+                outs += b_hasattr(E, s1, args, kw)
+            return outs
         if h.kind == 'obj':
             if name in h.fields:
                 return val(st, True)
